@@ -25,7 +25,7 @@ const (
 	c09Timeout  = 3 * time.Second
 )
 
-var c09Outcomes = []string{"dial-error", "dial-timeout", "refused", "no-connack", "close-before-connack", "close-after-connack", "protocol-error", "keepalive-timeout"}
+var c09Outcomes = []string{"dial-error", "dial-timeout", "refused", "no-connack", "close-before-connack", "close-after-connack", "protocol-error", "keepalive-timeout", "half-broken"}
 
 type c09Attempt struct {
 	outcome string
@@ -94,6 +94,13 @@ func (p *c09Peer) OnData(c *env.Conn, data []byte) error {
 			p.a.ok = true
 			p.silent = true
 			p.a.endAt = vrt.Now() + int64(c09Interval+c09Timeout)
+		case "half-broken":
+			// from now on writes fail while the read side stays open and silent: the first
+			// keep-alive PINGREQ cannot be written, which ends the connection one interval later
+			c.Send(env.EncConnAck(false, 0), "")
+			p.a.ok = true
+			c.FailWrites = true
+			p.a.endAt = vrt.Now() + int64(c09Interval)
 		default: // healthy
 			c.Send(env.EncConnAck(false, 0), "")
 			p.a.ok = true
@@ -166,13 +173,42 @@ func c09Body(script []string, base, max time.Duration, stop c09Stop, outNet **en
 		}
 		ctx, cancel := vctx.WithCancel(vctx.Background())
 		connRet, discRet := false, false
+		var discErr error
+		if stop.kind == "disconnect-in-handler" {
+			// the application shuts the client down from inside its message handler (a "quit" message
+			// pushed by the broker on the first established connection)
+			rc.Handle(mqtt.HandlerFunc(func(m *mqtt.Message) {
+				if discRet || stopCalled >= 0 {
+					return
+				}
+				stopCalled = vrt.Now()
+				dctx, dcancel := vctx.WithTimeout(vctx.Background(), 5*time.Second)
+				discErr = rc.Disconnect(dctx)
+				dcancel()
+				discRet = true
+				stopped = vrt.Now()
+			}))
+			quitSent := false
+			vrt.GoDaemon("quit-sender", func() {
+				vrt.Await("first connection Active", func() bool { return activeSeen })
+				if stop.at > 0 {
+					vrt.Sleep(int64(stop.at))
+				}
+				for _, a := range atts {
+					if a.ok && a.conn != nil && !a.conn.Down() && !quitSent {
+						quitSent = true
+						a.conn.Send(env.EncPublish("ctl", []byte("quit"), 0, 0, false, false), "quit")
+					}
+				}
+			})
+		}
 		cancelIrrelevant := false
 		var connErr error
 		vrt.Go("connect", func() {
 			_, connErr = rc.Connect(ctx, "c09", mqtt.WithKeepAlive(30), mqtt.WithCleanSession(true), mqtt.WithUserNamePassword("u", "p"))
 			connRet = true
 		})
-		if stop.kind != "none" {
+		if stop.kind != "none" && stop.kind != "disconnect-in-handler" {
 			vrt.Go("stopper", func() {
 				if stop.at == -2 {
 					// act when the first connection has just become Active inside the client (the reconnect
@@ -284,6 +320,13 @@ func c09Body(script []string, base, max time.Duration, stop c09Stop, outNet **en
 		if (stop.kind == "disconnect" || stop.kind == "cancel+disconnect") && !discRet {
 			vrt.Failf("c09/disconnect-blocked", "Disconnect has not returned\n%s", desc())
 		}
+		if stop.kind == "disconnect-in-handler" && stopCalled >= 0 {
+			if !discRet {
+				vrt.Failf("c09/disconnect-blocked:in-handler", "Disconnect called from inside the message handler has not returned\n%s", desc())
+			} else if discErr != nil {
+				vrt.Failf("c09/disconnect-blocked:in-handler", "Disconnect called from inside the message handler returned %v (it only came back on its 5 s deadline)\n%s", discErr, desc())
+			}
+		}
 		if dialAfterStop && !cancelIrrelevant {
 			vrt.Failf("c09/dial-after-stop:"+stop.kind, "a dial started after %s had taken effect\n%s", stop.kind, desc())
 		}
@@ -365,7 +408,10 @@ func runC09(c *Ctx) {
 		if len(sc) == 2 {
 			pp = p - 1
 		}
-		for _, kind := range []string{"disconnect", "cancel", "cancel+disconnect"} {
+		for _, kind := range []string{"disconnect", "cancel", "cancel+disconnect", "disconnect-in-handler"} {
+			if kind == "disconnect-in-handler" && len(sc) > 1 {
+				continue
+			}
 			sc, kind, pp := sc, kind, pp
 			s := &vrt.Scenario{
 				Name:       fmt.Sprintf("C09/stop/%s/%s", kind, strings.Join(sc, ",")),
